@@ -107,10 +107,11 @@ class SList(object):
 # ------------------------------------------------------------------ session
 
 class ObligationResult(object):
-    __slots__ = ("name", "kind", "status", "detail", "model", "path_id", "backend", "time")
+    __slots__ = ("name", "kind", "status", "detail", "model", "path_id", "backend", "time", "known")
 
     def __init__(self, name, kind, status, detail=None, model=None, path_id=None,
-                 backend=None, time_=0.0):
+                 backend=None, time_=0.0, known=None):
+        self.known = known
         self.name = name
         self.kind = kind
         self.status = status      # 'proved' | 'failed' | 'unknown' | 'oof'
@@ -138,6 +139,15 @@ class Session(object):
 
     def record(self, r):
         self.results.setdefault(r.name, []).append(r)
+
+    def record_on(self, path, r):
+        """Record r; a failure inside the region of a listed known finding of the
+        same obligation is tagged with that finding's id."""
+        if r.status == 'failed':
+            for (obl, fid) in path.known_region:
+                if obl == r.name:
+                    r.known = fid
+        self.record(r)
 
     def cover(self, name, reached=True):
         self.covers[name] = self.covers.get(name, False) or reached
@@ -185,6 +195,7 @@ class Path(object):
         self.ghost = {}
         self.notes = []
         self.current_fn = None
+        self.known_region = []    # (obligation, finding id) whose witness holds on this path
 
     # -- solver access
     def assume(self, cond):
@@ -449,8 +460,8 @@ class Path(object):
             sess.record(ObligationResult(name, kind, 'proved', detail, None, self.path_id, backend, dt))
             return True
         if verdict == 'sat' and cex is not None:
-            sess.record(ObligationResult(name, kind, 'failed', detail or str(c)[:400], cex,
-                                         self.path_id, backend, dt))
+            sess.record_on(self, ObligationResult(name, kind, 'failed', detail or str(c)[:400], cex,
+                                                  self.path_id, backend, dt))
             return False
         sess.record(ObligationResult(name, kind, 'unknown',
                                      (detail or '') + ' solver=' + verdict, None, self.path_id, backend, dt))
@@ -463,7 +474,7 @@ class Path(object):
         if verdict == 'unsat':
             raise Infeasible()
         st = 'failed' if (verdict == 'sat' and cex is not None) else 'unknown'
-        self.session.record(ObligationResult(name, kind, st, detail, cex, self.path_id, backend))
+        self.session.record_on(self, ObligationResult(name, kind, st, detail, cex, self.path_id, backend))
 
     def ok(self, name, kind, detail=None):
         self.session.vc_count += 1
